@@ -251,8 +251,15 @@ def _dfs_job(job):
 def _rand_job(job):
     kind, cfg, seed = job
     run = conc.run_stp if kind == 'stp' else conc.run_lpm
-    rec, sched = run(cfg, conc.random_chooser(seed))
-    rec['how'] = 'random'
+    # every second random execution is scheduled at EVERY source line of
+    # parallel_utils.py (long runs of one thread, random preemptions), the others
+    # at the operations of the specification only (uniform choice)
+    if seed % 2:
+        rec, sched = run(cfg, conc.sticky_chooser(seed, 0.7), pu_lines=True)
+        rec['how'] = 'random-every-line'
+    else:
+        rec, sched = run(cfg, conc.random_chooser(seed))
+        rec['how'] = 'random'
     rec['schedule'] = [c for _, c in sched.decisions]
     return rec
 
@@ -299,8 +306,12 @@ def shared_jobs(rng, count):
 
 def _ds_job(job):
     cfg, seed = job
-    rec, sched = conc.run_ds(cfg, conc.random_chooser(seed))
-    rec['how'] = 'random'
+    if seed % 2:
+        rec, sched = conc.run_ds(cfg, conc.sticky_chooser(seed, 0.7), pu_lines=True)
+        rec['how'] = 'random-every-line'
+    else:
+        rec, sched = conc.run_ds(cfg, conc.random_chooser(seed))
+        rec['how'] = 'random'
     return rec
 
 
